@@ -498,9 +498,9 @@ func main() {
 	if rp := os.Getenv("VERIF_REPLAY"); rp != "" {
 		mc.ReplayFromFile(rp, lockHandler)
 	}
-	maxK := 4
+	maxK := 6
 	if run.Thorough() {
-		maxK = 5
+		maxK = 7
 	}
 	e1, d1 := partWriters(run)
 	e2 := partRelays(run)
@@ -514,9 +514,9 @@ func main() {
 				items = append(items, fmt.Sprintf("lock|%s|%s;%s", wr, progs[i], progs[j]))
 			}
 		}
-		items = append(items, fmt.Sprintf("lock|%s|W;S;W", wr), fmt.Sprintf("lock|%s|W;S;S", wr))
+		items = append(items, fmt.Sprintf("lock|%s|W;S;W", wr), fmt.Sprintf("lock|%s|W;S;S", wr), fmt.Sprintf("lock|%s|W,S;S;W", wr), fmt.Sprintf("lock|%s|W;W;W", wr))
 		if run.Thorough() {
-			items = append(items, fmt.Sprintf("lock|%s|W,S;S;W", wr))
+			items = append(items, fmt.Sprintf("lock|%s|W,S;S,W;W", wr), fmt.Sprintf("lock|%s|W,W;S,S;W,S", wr), fmt.Sprintf("lock|%s|W;S;W;S", wr))
 		}
 	}
 	var sum mc.Summary
